@@ -34,7 +34,6 @@ structure RState where
   needCover : Option Nat := none       -- C14: after the fault cleared, the next acknowledgement must cover this many batches
   crashed : Bool := false              -- the chain contains a crash
   pendingOpen : Option (List Nat) := none   -- `open` seen (Lock succeeded); the snapshot epochs whose Load failed since
-  openFault : Option String := none    -- C14: a listing made by the OpenWriter in progress was made to fail
   floorK : Nat := 0                    -- C14: batches a successful persist after a failure has covered: every later recovery must hold them
   mustCover : Nat := 0                 -- C14: batches applied when the last persist failure was reported
   loadFallback : Bool := false         -- C14: OpenWriter skipped a loadable snapshot newer than the one it ended with (Load fault)
@@ -390,15 +389,10 @@ def stepLine (r : RState) (op impl : String) : RState × String :=
       | none => (r, answer "bad-op" "na" [])
   | some skip, "image" :: _ => let (r', a) := stepLine1 { r with pendingOpen := none } op impl; ({ r' with pendingOpen := some skip }, a)
   | some _, "crash" :: _ => stepLine1 { r with pendingOpen := none } op impl   -- the process died while OpenWriter ran: nothing was opened
-  | some skip, ["fstart", w] =>
-      let (r', a) := stepLine1 { r with pendingOpen := none } op impl
-      ({ r' with pendingOpen := some skip, openFault := if w.startsWith "list-" then some w else r'.openFault }, a)
-  | none, ["openfail"] =>
-      -- Lock itself was made to fail (no `open` record): OpenWriter must fail, nothing changes
-      if r.faultOn then (r, answer (if r.d.sync then showState r.d.s else impl) "ok" ["openfail", "openfail-by-fault"]) else stepLine1 r op impl
+  | some skip, ["fstart", _] => let (r', a) := stepLine1 { r with pendingOpen := none } op impl; ({ r' with pendingOpen := some skip }, a)
   | some skip, ["fclear"] => let (r', a) := stepLine1 { r with pendingOpen := none } op impl; ({ r' with pendingOpen := some skip }, a)
   | some skip, ["openfail"] =>
-      let r := { r with pendingOpen := none, openFault := none }
+      let r := { r with pendingOpen := none }
       (match stepOpenSkip skip r.d.s with
        | none => (r, answer (showState r.d.s) "ok" ["openfail", "open-refused"])
        | some _ =>
@@ -408,11 +402,6 @@ def stepLine (r : RState) (op impl : String) : RState × String :=
       let r := { r with pendingOpen := none }
       (match stepOpenSkip skip r.d.s with
        | some s' =>
-           -- OpenWriter went on although a listing it needs had failed: the failure was not reported
-           if r.openFault.isSome then
-             ({ r with openFault := none, d := { r.d with sync := false } },
-              answer impl s!"bad:open-fault-not-reported {r.openFault.getD ""} failed while OpenWriter ran and OpenWriter did not return the error" ["open-fault-not-reported"])
-           else
            let fell := r.d.s.disk.snaps.any fun f => skip.contains f.epoch && r.d.s.disk.loadable f && decide (s'.rootEpoch < f.epoch)
            let r := { r with d := { r.d with s := s' }, loadFallback := r.loadFallback || fell }
            let (r', a) := stepLine1 r op impl
